@@ -47,13 +47,34 @@ func c10Run(cs c10Case, probe string) (viol string, trunc bool) {
 		}
 		vrt.Go("pump", func() { att.Pump(32 * 1024) })
 		w := c10Wire(cs)
+		// the transport hands the handler slices of ONE buffer that it re-uses (io.Copy does)
+		tbuf := make([]byte, 32*1024)
+		feed := func(b []byte) {
+			for len(b) > 0 {
+				n := copy(tbuf, b)
+				att.H.Write(tbuf[:n])
+				b = b[n:]
+			}
+		}
 		if cs.Split > 0 && cs.Split < len(w) {
-			att.H.Write(w[:cs.Split])
-			att.H.Write(w[cs.Split:])
+			feed(w[:cs.Split])
+			feed(w[cs.Split:])
 		} else {
-			att.H.Write(w)
+			feed(w)
 		}
 		vrt.Sleep("attack", 12*time.Second)
+		if cs.Split > 0 && strings.HasPrefix(cs.Payload, "cat ") {
+			// a well-formed command must work however the transport segments it
+			got := ""
+			for _, m := range att.Lines() {
+				if f := strings.SplitN(m, "|", 6); len(f) == 6 {
+					got += f[5]
+				}
+			}
+			if got != "probe line 1\nprobe line 2\n" {
+				vrt.Failf("segmented", "a well-formed cat command split across two transport writes at byte %d was not executed: delivered %q", cs.Split, got)
+			}
+		}
 		// the well-behaved session of another user
 		vic := NewServerSession("victim", "otheruser", cat, tail)
 		vrt.Go("pump", func() { vic.Pump(32 * 1024) })
@@ -108,6 +129,8 @@ func c10Sig(cs c10Case, msg string) string {
 		return "panic-" + cs.Kind + "-" + w
 	case strings.HasPrefix(msg, "deadlock"):
 		return "deadlock-" + w
+	case strings.HasPrefix(msg, "segmented"):
+		return "command-split-across-writes-not-executed"
 	case strings.HasPrefix(msg, "victim"):
 		return "other-session-starved-" + w
 	}
